@@ -52,6 +52,22 @@ def _inlinable(h: FuncInfo, as_statement: bool) -> bool:
     return False
 
 
+def _is_path(e: ast.AST) -> bool:
+    while isinstance(e, ast.Attribute):
+        e = e.value
+    return isinstance(e, ast.Name)
+
+
+class _SubstExpr(ast.NodeTransformer):
+    def __init__(self, m: Dict[str, ast.AST]):
+        self.m = m
+
+    def visit_Name(self, node):
+        if isinstance(node.ctx, ast.Load) and node.id in self.m:
+            return ast.copy_location(copy.deepcopy(self.m[node.id]), node)
+        return node
+
+
 class _Rename(ast.NodeTransformer):
     def __init__(self, m: Dict[str, str]):
         self.m = m
@@ -87,6 +103,8 @@ def _expand(idx: PyIndex, fi: FuncInfo, call: ast.Call, h: FuncInfo, at: ast.AST
         if kw.arg is None:
             return None
         bound[kw.arg] = kw.value
+    stored = {x.id for x in ast.walk(hn) if isinstance(x, ast.Name) and isinstance(x.ctx, (ast.Store, ast.Del))}
+    direct: Dict[str, ast.AST] = {}
     for p in params + [a.arg for a in hn.args.kwonlyargs]:
         v = bound.get(p, defaults.get(p))
         if v is None:
@@ -94,9 +112,16 @@ def _expand(idx: PyIndex, fi: FuncInfo, call: ast.Call, h: FuncInfo, at: ast.AST
             v = kd.get(p)
         if v is None:
             return None
+        # an argument that is a plain name / attribute path / constant is substituted directly (no alias), unless the helper rebinds the parameter
+        if p not in stored and (isinstance(v, (ast.Name, ast.Constant)) or (isinstance(v, ast.Attribute) and _is_path(v))):
+            direct[p] = v
+            ren.pop(p, None)
+            continue
         st = ast.Assign(targets=[ast.Name(id=ren[p], ctx=ast.Store())], value=copy.deepcopy(v))
         binds.append(st)
     body = [_Rename(ren).visit(s) for s in hn.body]
+    if direct:
+        body = [_SubstExpr(direct).visit(s) for s in body]
     # drop the docstring
     if body and isinstance(body[0], ast.Expr) and isinstance(body[0].value, ast.Constant) and isinstance(body[0].value.value, str):
         body = body[1:]
